@@ -240,6 +240,7 @@ static inline bool Drain()
 }
 // the harness tells the scheduler that a wake-up socket pair was closed / re-created (Thread::CloseSockets has no hook)
 static inline void ForgetSocket(const void * tsd) {std::lock_guard<std::mutex> lk(S.G); S.sockPending.erase(tsd); S.sockEOF.erase(tsd);}
+static inline void ForgetAllSockets() {std::lock_guard<std::mutex> lk(S.G); S.sockPending.clear(); S.sockEOF.clear();}
 static inline void Deactivate() {S.active = false;}
 }  // namespace vs
 #endif
